@@ -140,18 +140,27 @@ void myth_verif_ev(const char *name, int n, ...){
   }
   va_start(ap, n); log_ev(name, n, ap); va_end(ap);
 }
-void myth_verif_evz(const char *name, int n, ...){
-  va_list ap; long a[MAXARGS]; int i;
-  if (!myth_verif_active()) return;
-  va_start(ap, n);
+static void evzk(const char *name, int k, int n, va_list ap){
+  long a[MAXARGS]; int i;
   if (idle[me]){
     va_list aq; va_copy(aq, ap);
     for (i = 0; i < n && i < MAXARGS; i++) a[i] = va_arg(aq, long);
     va_end(aq);
-    if (n > 0 && a[n - 1] == 0){ va_end(ap); return; }
+    if (k > 0 && k <= n && a[k - 1] == 0) return;
     idle[me] = 0;   /* got a thread: no longer idle (SchedRun follows) */
   }
-  log_ev(name, n, ap); va_end(ap);
+  log_ev(name, n, ap);
+}
+void myth_verif_evz(const char *name, int n, ...){
+  va_list ap;
+  if (!myth_verif_active()) return;
+  va_start(ap, n); evzk(name, n, n, ap); va_end(ap);
+}
+/* same, the k-th argument decides */
+void myth_verif_evzk(const char *name, int k, int n, ...){
+  va_list ap;
+  if (!myth_verif_active()) return;
+  va_start(ap, n); evzk(name, k, n, ap); va_end(ap);
 }
 static long lookup_id(int ns, const void *p){
   long i; idns_t *t = &ids[ns];
@@ -180,6 +189,7 @@ long vrt_nevents(void){ return nev; }
 int vrt_peek(int back, const char **name, long *lastarg){
   ev_t *e; if (back < 1 || back > nev) return 0;
   e = &evs[nev - back]; *name = e->name; *lastarg = e->n ? e->a[e->n - 1] : 0; return 1; }
+long vrt_peek_arg(int back, int k){ ev_t *e; if (back < 1 || back > nev) return -1; e = &evs[nev - back]; return (k >= 1 && k <= e->n) ? e->a[k - 1] : -1; }
 int vrt_all_others_idle(void){ int i; for (i = 0; i < NW; i++) if (i != me && !idle[i]) return 0; return 1; }
 
 static int cmp_long(const void *a, const void *b){ long x = *(const long*)a, y = *(const long*)b; return x < y ? -1 : x > y; }
